@@ -91,3 +91,20 @@ type QCtxHolder struct {
 	Sl []QCtxFirst
 	X  int
 }
+
+// Types that share member names but not layouts: one query (one hash) is used on all of them.
+type QSameA struct {
+	K int    `json:"k"`
+	S string `json:"s"`
+}
+
+type QSameB struct {
+	S string `json:"s"`
+	K int    `json:"k"`
+}
+
+type QSameC struct {
+	Pad [3]int64 `json:"pad"`
+	K   *int     `json:"k"`
+	S   []string `json:"s"`
+}
